@@ -332,14 +332,9 @@ void
 Pointset_Powerset<PSET>::map_space_dimensions(const Partial_Function& pfunc) {
   Pointset_Powerset& x = *this;
   if (x.is_bottom()) {
-    dimension_type n = 0;
-    for (dimension_type i = x.space_dim; i-- > 0; ) {
-      dimension_type new_i;
-      if (pfunc.maps(i, new_i)) {
-        ++n;
-      }
-    }
-    x.space_dim = n;
+    // Note: the codomain of `pfunc' is an initial segment of the naturals;
+    // do not iterate on the (possibly huge) space dimension of `x'.
+    x.space_dim = pfunc.has_empty_codomain() ? 0 : pfunc.max_in_codomain() + 1;
   }
   else {
     Sequence_iterator s_begin = x.sequence.begin();
